@@ -65,6 +65,8 @@ def run(max_cases=4000, seed=0):
             hres = materialize(hv, x)
         except H.Err:
             hres = None
+        except H.Unsupported:
+            continue
         try:
             real = RT.Tensor(x)[index if len(index) != 1 else index[0]].value
         except Exception:
